@@ -192,6 +192,8 @@ var Seeds = [][]string{
 	7: {"00", "0a", "a0", "aa"},
 	8: {"aaaa", "aa00"},     // ext(2) -> branch of leaves
 	9: {"a000", "a0aa", "aa"}, // ext(1) -> branch{0: ext(1)->branch, a: leaf}
+	10: {"0000"},              // single long leaf
+	11: {"00aa", "aa00"},      // root branch of two long leaves
 }
 
 // ApplySeed inserts seed number i (concrete values) into t and the reference.
@@ -203,4 +205,69 @@ func ApplySeed(t util.MerklePatriciaTrieI, r *Ref, i int) {
 		}
 		r.Put([]byte(p), v)
 	}
+}
+
+// NodeInfo is one node reachable from a root, in DFS order (index 0 is the root).
+type NodeInfo struct {
+	Key    []byte
+	Parent int
+	Node   util.Node
+}
+
+// Reachable walks the store from root and lists every reachable node (store must be complete).
+func Reachable(db util.NodeDB, root util.Key) []NodeInfo {
+	var out []NodeInfo
+	var walk func(key util.Key, parent int)
+	walk = func(key util.Key, parent int) {
+		n, err := db.GetNode(key)
+		if err != nil {
+			return
+		}
+		idx := len(out)
+		out = append(out, NodeInfo{Cp(key), parent, n})
+		switch ni := n.(type) {
+		case *util.FullNode:
+			for _, c := range ni.Children {
+				if c != nil {
+					walk(c, idx)
+				}
+			}
+		case *util.ExtensionNode:
+			walk(ni.NodeKey, idx)
+		}
+	}
+	if len(root) > 0 {
+		walk(root, -1)
+	}
+	return out
+}
+
+// PathNodeKeys returns the keys of the nodes a lookup of path visits (complete store).
+func PathNodeKeys(db util.NodeDB, root util.Key, path []byte) [][]byte {
+	var keys [][]byte
+	key := root
+	for len(key) > 0 {
+		n, err := db.GetNode(key)
+		if err != nil {
+			return keys
+		}
+		keys = append(keys, Cp(key))
+		switch ni := n.(type) {
+		case *util.LeafNode:
+			return keys
+		case *util.FullNode:
+			if len(path) == 0 {
+				return keys
+			}
+			key = ni.GetChild(path[0])
+			path = path[1:]
+		case *util.ExtensionNode:
+			if len(path) < len(ni.Path) || string(path[:len(ni.Path)]) != string(ni.Path) {
+				return keys
+			}
+			key = ni.NodeKey
+			path = path[len(ni.Path):]
+		}
+	}
+	return keys
 }
